@@ -1,4 +1,6 @@
 import Prism.Proofs.C13
+import Prism.Proofs.C13Float
+import Prism.Proofs.C13FloatInv
 
 #print axioms Prism.Lab.C13_junction
 #print axioms Prism.Lab.C13_white
@@ -6,3 +8,7 @@ import Prism.Proofs.C13
 #print axioms Prism.Lab.C13_L_mono
 #print axioms Prism.Lab.C13_finv_f
 #print axioms Prism.Lab.C13_f_finv
+#print axioms Prism.C13_toLAB_float
+#print axioms Prism.C13_toLAB_within_1e3
+#print axioms Prism.C13_fromLAB_float
+#print axioms Prism.C13_roundtrip_float
